@@ -1,13 +1,13 @@
 SPECIFICATION Spec
 CONSTANTS
-  Modes = {"tmux", "win"}
+  Modes = {"win"}
   ExpType <- MC_ExpType
-  LineTypes <- MC_LineTypes
+  LineTypes <- MC_LineTypes1
   PayBytes = {97, 98}
   MaxPay = 2
-  MaxLines = 2
+  MaxLines = 1
   MaxNoise = 2
-  MaxPend = 6
+  MaxPend = 2
   TxtSet <- MC_TxtSet
   CsiSet <- MC_CsiSet
   PadBytes = {32}
